@@ -231,13 +231,165 @@ class DirMigrations(Migrations):
         return out
 
 
+SPECIAL_SRC = '''
+from typing import Generator
+import numpy as np
+from taskchain import Task, Parameter, DirData
+from taskchain.data import ContinuesData
+
+RUNS = []
+
+class Nothing(Task):            # a generated sequence without items: a result file of zero bytes
+    def run(self) -> Generator:
+        RUNS.append(self.slugname)
+        return
+        yield
+
+class EmptyDict(Task):
+    def run(self) -> dict:
+        RUNS.append(self.slugname)
+        return {}
+
+class EmptyList(Task):
+    def run(self) -> list:
+        RUNS.append(self.slugname)
+        return []
+
+class EmptyArray(Task):
+    def run(self) -> np.ndarray:
+        RUNS.append(self.slugname)
+        return np.zeros((0, 3))
+
+class EmptyDir(Task):
+    def run(self) -> DirData:
+        RUNS.append(self.slugname)
+        return self.get_data_object()
+
+class Resumable(Task):          # started, checkpoint written, not finished: its working directory is kept
+    class Meta:
+        parameters = [Parameter('finish')]
+    def run(self, finish) -> ContinuesData:
+        RUNS.append(self.slugname)
+        d = self.get_data_object()
+        (d.dir / 'checkpoint.txt').write_text('epoch 3')
+        if not finish:
+            raise RuntimeError('interrupted')
+        d.finished()
+        return d
+
+class Count(Task):
+    class Meta:
+        input_tasks = [Nothing, EmptyDict, EmptyList]
+    def run(self, nothing, empty_dict, empty_list) -> dict:
+        RUNS.append(self.slugname)
+        return {'n': len(list(nothing)) + len(empty_dict) + len(empty_list)}
+'''
+
+
+class SpecialSources(Suite):
+    """stored results at the edge of their kinds - a generated sequence without items (a file of zero bytes), empty
+    mappings, lists, arrays and directories - and a source directory that holds the working directory of a resumable
+    task that was started and not finished, plus files the library did not write: after migration every task that had a
+    result has one in the target with the same value and runs nothing, and no file of the source is touched.
+    Runtime check only."""
+    name = 'special_sources'
+    model = ''
+
+    def gen(self, rng, tier):
+        return [dict(drys=d, unfinished=u, stray=st, verbose=v) for d in ([False], [True, False], [False, False])
+                for u in (False, True) for st in (False, True) for v in (False,)]
+
+    def run_impl(self, case):
+        import sys, types
+        from taskchain import Config
+        from taskchain.utils.migration import migrate_to_parameter_mode
+        with pl.workspace(dict(classes=[], files={})) as (d, _):
+            name = 'tcv_special'
+            m = types.ModuleType(name)
+            sys.modules[name] = m
+            try:
+                exec(compile(SPECIAL_SRC, name, 'exec'), m.__dict__)
+                Path('exp.json').write_text(json.dumps({'tasks': [f'{name}.*'], 'finish': not case['unfinished']}))
+                cfg = Config(Path('data'), 'exp.json')
+                old = cfg.chain(parameter_mode=False)
+                old_values, failed = {}, []
+                for n, t in old.tasks.items():
+                    try:
+                        v = t.value
+                        old_values[n] = describe_special(v)
+                    except RuntimeError:
+                        failed.append(n)
+                if case['stray']:
+                    (Path('data') / 'nothing' / 'notes.txt').write_text('kept by hand')
+                    (Path('data') / 'empty_dict' / 'exp_tmp').mkdir()
+                    (Path('data') / 'empty_dict' / 'exp_tmp' / 'scratch.bin').write_bytes(b'\x00\x01')
+                src0 = tree('data')
+                steps = []
+                for dry in case['drys']:
+                    buf = io.StringIO()
+                    try:
+                        with contextlib.redirect_stdout(buf):
+                            migrate_to_parameter_mode(cfg, Path('target'), dry=dry, verbose=case['verbose'])
+                        steps.append(dict(src=tree('data'), dst=tree('target')))
+                    except Exception as e:
+                        steps.append(dict(error=f'{type(e).__name__}: {e}'[:200]))
+                        break
+                m.RUNS.clear()
+                new = Config(Path('target'), 'exp.json').chain()
+                has = {n: bool(t.has_data) for n, t in new.tasks.items()}
+                vals = {n: describe_special(t.value) for n, t in new.tasks.items() if has[n]}
+                return dict(src0=src0, steps=steps, old_values=old_values, failed=failed, has=has, values=vals, ran=list(m.RUNS))
+            finally:
+                sys.modules.pop(name, None)
+
+    def oracle(self, case, obs):
+        if 'unexpected_exception' in obs:
+            return f'unexpected exception {obs["unexpected_exception"]}: {obs["text"]}'
+        for k, s in enumerate(obs['steps']):
+            if 'error' in s:
+                return f'{case}: migration {k} failed: {s["error"]}'
+            src0 = {p: h for p, h in obs['src0']}
+            src = {p: h for p, h in s['src']}
+            gone = [p for p, h in src0.items() if h != 'dir' and src.get(p) != h]
+            if gone:
+                return f'{case}: migration {k} changed or removed files of the source directory: {gone[:4]}'
+            new_files = [p for p, h in src.items() if h != 'dir' and p not in src0]
+            if new_files:
+                return f'{case}: migration {k} added files to the source directory: {new_files[:4]}'
+        for n, v in obs['old_values'].items():
+            if not obs['has'].get(n):
+                return f'{case}: {n} had a stored result in name mode ({json.dumps(v)[:80]}) and has none in the target after migration'
+            if json.dumps(obs['values'][n], sort_keys=True) != json.dumps(v, sort_keys=True):
+                return f'{case}: {n}: the migrated value {json.dumps(obs["values"][n])[:120]} differs from the original {json.dumps(v)[:120]}'
+        if obs['ran']:
+            return f'{case}: loading the migrated results ran {obs["ran"]}'
+        return None
+
+    def nontrivial(self, case, obs):
+        return True
+
+    def key(self, case):
+        return repr(case)
+
+
+def describe_special(v):
+    import numpy as np
+    if isinstance(v, Path):
+        return {'__dir__': tree(v)}
+    if isinstance(v, np.ndarray):
+        return {'__array__': [list(v.shape), str(v.dtype), v.tolist()]}
+    if isinstance(v, (dict, list, str, int, float, bool)) or v is None:
+        return v
+    return {'__items__': list(v)}
+
+
 def source_dirs_class(violation, known):
     return violation.get('oracle', '').startswith('[source-dirs-created]')
 
 
 class C20(Prop):
     pid = 'C20'
-    suites = [Migrations(), DirMigrations()]
+    suites = [Migrations(), DirMigrations(), SpecialSources()]
     known_classes = {'source-dirs-created': source_dirs_class}
     assumptions = ['file-based configs (the utility re-reads the config file); JSON and in-memory data classes in the '
                    'correspondence; file contents are compared by SHA-256 of their bytes']
